@@ -4,7 +4,7 @@
 (* and hands the encoding to the connection in one Write.  A message is a     *)
 (* pair <<producer, index>>; its encoding is a frame identified by the pair.  *)
 EXTENDS Integers, Sequences, FiniteSets, TLC
-CONSTANTS Producers, PerProducer, TwoWriters
+CONSTANTS Producers, PerProducer, TwoWriters, WriteFails
 VARIABLES next, outbound, wpc, wmsg, wire
 vars == <<next, outbound, wpc, wmsg, wire>>
 Writers == IF TwoWriters THEN {1, 2} ELSE {1}
@@ -18,12 +18,20 @@ WRecv(w) == /\ wpc[w] = "recv" /\ outbound # <<>>
             /\ wpc' = [wpc EXCEPT ![w] = "write"] /\ UNCHANGED <<next, wire>>
 WWrite(w) == /\ wpc[w] = "write" /\ wire' = Append(wire, wmsg[w]) /\ wpc' = [wpc EXCEPT ![w] = "recv"]
              /\ UNCHANGED <<next, outbound, wmsg>>
-Next == (\E p \in Producers : Submit(p)) \/ (\E w \in Writers : WRecv(w) \/ WWrite(w))
+\* the connection accepts part of the frame and reports an error (a lapsed write deadline): outbound() gives up -- it logs fatally, the
+\* writer goroutine ends, nothing is written any more (a retry that re-sent the whole message would put its prefix on the wire twice)
+WFail(w) == /\ WriteFails /\ wpc[w] = "write"
+            /\ wire' = Append(wire, <<wmsg[w][1], wmsg[w][2], "part">>) /\ wpc' = [wpc EXCEPT ![w] = "dead"]
+            /\ UNCHANGED <<next, outbound, wmsg>>
+Next == (\E p \in Producers : Submit(p)) \/ (\E w \in Writers : WRecv(w) \/ WWrite(w) \/ WFail(w))
 Spec == Init /\ [][Next]_vars /\ WF_vars(\E w \in Writers : WRecv(w) \/ WWrite(w)) /\ \A p \in Producers : WF_vars(Submit(p))
 \* every frame on the wire is a submitted message, at most once
 OnceOnly == \A i, j \in 1..Len(wire) : wire[i] = wire[j] => i = j
 Submitted == \A i \in 1..Len(wire) : wire[i][2] < next[wire[i][1]]
 \* messages of one producer appear in submission order
 ProducerOrder == \A i, j \in 1..Len(wire) : (i < j /\ wire[i][1] = wire[j][1]) => wire[i][2] < wire[j][2]
-AllWritten == <>[](Len(wire) = Cardinality(Producers) * PerProducer)
+\* a partially written frame is the last thing on the wire (with one writer)
+IsPart(x) == Len(x) = 3
+NothingAfterPartial == \A i \in 1..Len(wire) : IsPart(wire[i]) => i = Len(wire)
+AllWritten == ~WriteFails => <>[](Len(wire) = Cardinality(Producers) * PerProducer)
 =============================================================================
